@@ -65,7 +65,11 @@ type BodyObs struct {
 // Script is the run-time state of a Program's bodies: attempt counter, what the bodies observed, and the
 // scripted body faults (await FALSE).
 type Script struct {
-	Prog    Program
+	Prog Program
+	// Probe (optional) is called inside the attempt, in the Run goroutine, before every operation and once more after
+	// the last one (op == len(ops)), i.e. right before the abort/commit decision: the place from which a harness
+	// lets a remote party look at the resources while the section is in flight
+	Probe   func(sec, op, attempt int)
 	AbortAt func(sec, op, attempt int) bool // body returns ErrCriticalSectionAborted before op (op == len(ops): after the last one); nil = never
 	ValueOf func(o Op) (tla.Value, bool)    // value written by a "w" op (ok=false or nil func: the string tag o.V)
 	Attempt int                             // number of body executions started so far
@@ -110,6 +114,9 @@ func (s *Script) body(sec int) func(iface distsys.ArchetypeInterface) error {
 		ops := s.Prog.Sections[sec].Ops
 		var last tla.Value
 		for i, o := range ops {
+			if s.Probe != nil {
+				s.Probe(sec, i, att)
+			}
 			if s.AbortAt != nil && s.AbortAt(sec, i, att) {
 				return distsys.ErrCriticalSectionAborted // a false `await`
 			}
@@ -156,6 +163,9 @@ func (s *Script) body(sec int) func(iface distsys.ArchetypeInterface) error {
 			default:
 				panic("gate2: bad op " + o.K)
 			}
+		}
+		if s.Probe != nil {
+			s.Probe(sec, len(ops), att)
 		}
 		if s.AbortAt != nil && s.AbortAt(sec, len(ops), att) {
 			return distsys.ErrCriticalSectionAborted
